@@ -438,11 +438,13 @@ def C07(tier, seed):
     if tier == "quick":
         # (2,1,3): three cells per frame - a node can consist of two parts that are not adjacent
         # (2,2,1,1): 3D+t with TWO z-planes (a node can span planes); (2,1,1,2) is in the thorough tier
+        # (2,3,1,1): THREE z-planes - a 3D mask can have a gap along z
         specs = [("paint", 2, G2, {}), ("paint", 2, (2, 2, 1, 1), {}), ("paint", 1, (2, 1, 3), {}),
+                 ("paint", 1, (2, 3, 1, 1), {}), ("UserDeleteNode", 1, (2, 3, 1, 1), {}),
                  ("UserDeleteNode", 2, G2, {}), ("UserAddNode", 2, G2, {})]
     else:
         specs = [("paint", 3, G2, {}), ("paint", 2, G3, {}), ("paint", 2, G3D, {}), ("paint", 2, (2, 2, 1, 1), {}),
-                 ("paint", 2, (2, 1, 4), {}),
+                 ("paint", 2, (2, 1, 4), {}), ("paint", 2, (2, 3, 1, 1), {}), ("UserDeleteNode", 2, (2, 3, 1, 1), {}),
                  ("paint", 2, (2, 2, 2), {}), ("UserDeleteNode", 3, G3, {}),
                  ("UserAddNode", 3, G2, {}), ("UserAddNode", 2, G3D, {})]
     return _seg("C07", tier, seed, specs)
